@@ -83,4 +83,22 @@ static int V##_at(int i) \
   __CPROVER_assert(0 <= i && i < V##_n, "std::vector index within size()"); \
   return i; \
 }
+/* ---- reference implementations (concrete arrays, no contracts): used by the per-class constructor harnesses, where every key and
+ *      address is a constant and CBMC simply executes the code.  Each body is checked against the contract above by
+ *      the `container refinement` obligations of C11 (enforce-contract on the reference body). ---- */
+#define VMAP_DECLARE_REF(M) \
+_Bool M##_present[KMAX]; int M##_val[KMAX]; int M##_size; \
+int M##_find(vkey k) { return M##_present[k] ? k : VEND; } \
+int M##_get_or_insert(vkey k) { if (!M##_present[k]) { M##_present[k] = 1; M##_val[k] = 0; M##_size++; } return M##_val[k]; } \
+void M##_set(vkey k, int v) { if (!M##_present[k]) { M##_present[k] = 1; M##_size++; } M##_val[k] = v; } \
+int M##_begin(void) { int k = 0; while (k < KMAX && !M##_present[k]) k++; return k; } \
+int M##_next(int it) { int k = it + 1; while (k < KMAX && !M##_present[k]) k++; return k; }
+#define VVEC_DECLARE_REF(V) \
+int V##_p[VMAXV]; int V##_n; \
+void V##_push(int x) { V##_p[V##_n] = x; V##_n = V##_n + 1; } \
+static int V##_at(int i) \
+{ \
+  __CPROVER_assert(0 <= i && i < V##_n, "std::vector index within size()"); \
+  return i; \
+}
 #endif
